@@ -32,7 +32,8 @@ def fkOf : String → Option FK
 
 def ctOf (s : String) : CT :=
   match ikOf s, fkOf s with
-  | some k, _ => .int k | _, some k => .flt k | _, _ => .char
+  | some k, _ => .int k | _, some k => .flt k
+  | _, _ => if s.startsWith "chars" then .chars (natOf (s.drop 5).toString) else .char
 
 def vkOf (s : String) : VK :=
   match ikOf s, fkOf s with
@@ -237,7 +238,9 @@ def finishCtx (c : Case) : List String :=
   let m := showFlags (Ctx.trace {} c.evs)
   let i := showFlags c.flags
   let corr := if m == i then s!"{c.id} CORR ok" else s!"{c.id} CORR diff model=[{m}] impl=[{i}]"
-  let prop := if ctxOk c.evs c.flags then "ok" else "fail validation_in_force_outside_disable_blocks"
+  -- the property's direction only (`ctxInForce`); that the switch is *off* inside a disabling block is the
+  -- correspondence above
+  let prop := if ctxInForce c.evs c.flags then "ok" else "fail validation_in_force_outside_disable_blocks"
   [corr, s!"{c.id} PROP C09 {prop}"]
 
 /-- split a token list at the ";" separators -/
